@@ -934,6 +934,18 @@ def vector_writes_restamp(facts, R):
             b = w["body"]
             if w["kind"] == "whole":
                 continue
+            if w["kind"] == "mut-borrow" and w.get("dest") and not w["dest"]["p"]:
+                # a `&mut` that only ever goes to calls that cannot change the vector's length (capacity management, in-place edits of
+                # the elements) leaves the header lengths true
+                r_ = w["dest"]["l"]
+                keeps = ("reserve", "reserve_exact", "try_reserve", "try_reserve_exact", "shrink_to_fit", "shrink_to", "capacity", "as_mut_slice", "iter_mut",
+                         "as_mut_ptr", "fill", "reverse", "sort", "sort_unstable", "make_ascii_lowercase", "make_ascii_uppercase", "copy_from_slice", "swap", "len", "is_empty")
+                uses = [t_ for _, t_ in b.calls() if any((op_place(a_) or {}).get("l") == r_ for a_ in t_["args"])]
+                other = [1 for _, _, st_ in b.assigns() if any((op_place(o_) or {}).get("l") == r_ for o_ in (st_["rv"].get(k_) for k_ in ("use", "cast")) if isinstance(o_, dict))
+                         or (st_["rv"].get("ref") or {}).get("l") == r_]
+                if uses and not other and all(t_["callee"]["name"] in keeps for t_ in uses):
+                    R.ok("length-formula", b.path, "a `&mut` of Message.%s that cannot change its length" % fld, w.get("span"), "only %s" % sorted({t_["callee"]["name"] for t_ in uses}))
+                    continue
             n += 1
             restamps = [(x["bb"], x["idx"]) for x in field_writes(facts, "header::Header", fld + "_length", include_borrows=False) if x["body"] is b and x["kind"] == "store"]
             wpath = must_cross(b, [(w["bb"], w["idx"])], return_points(b), restamps) if restamps else [w["bb"]]
